@@ -405,6 +405,23 @@ Definition arr2_bin {F : Type} (f : F -> F -> F) (a b : arr2 F) : res (arr2 F) :
   if same_dims a b then Ret (mk_arr2 (a_rows a) (a_cols a) (py_map2 (py_map2 f) (a_cells a) (a_cells b)))
   else Raise "ValueError".
 
+(* the sparsity weight as the caller passed it: a real scalar (Python int / float / NumPy scalar), a 2-D array, or anything else *)
+Inductive lamv (F : Type) : Type :=
+| LamScalar (x : F)
+| LamArray (a : arr2 F)
+| LamOther.
+Arguments LamScalar {F} x.
+Arguments LamArray {F} a.
+Arguments LamOther {F}.
+(* isinstance(x, numbers.Real) / isinstance(x, np.ndarray) *)
+Definition lam_is_real {F : Type} (x : lamv F) : bool := match x with LamScalar _ => true | _ => false end.
+Definition lam_is_array {F : Type} (x : lamv F) : bool := match x with LamArray _ => true | _ => false end.
+(* float(x) *)
+Definition lam_float {F : Type} (x : lamv F) : res F := match x with LamScalar v => Ret v | _ => Raise "TypeError" end.
+(* x[rows, cols] *)
+Definition lam_take2 {F : Type} (x : lamv F) (rows cols : list Z) : res (list F) :=
+  match x with LamArray a => np_take2 a rows cols | _ => Raise "TypeError" end.
+
 (* ---- facts used by every equivalence proof ---- *)
 Lemma bind_ret {A B : Type} (a : A) (f : A -> res B) : bind (Ret a) f = f a.
 Proof. reflexivity. Qed.
